@@ -156,7 +156,7 @@ def cond_estimate(net, inject=None, laws=None) -> float:
         return float('inf')
 
 
-def nodal_cond(net) -> float:
+def nodal_cond(net, pseudo=False) -> float:
     """condition number of an (unscaled) modified-nodal float matrix of the network: a float nodal solver cannot be
     more accurate than eps*this, whatever its details - used only to decide which cases are judged"""
     import numpy as np
@@ -184,6 +184,10 @@ def nodal_cond(net) -> float:
     if M.size == 0:
         return 1.0
     try:
+        if pseudo:
+            sv = np.linalg.svd(M, compute_uv=False)
+            sv = sv[sv > 1e-13 * sv.max()] if sv.size and sv.max() > 0 else sv
+            return float(sv.max() / sv.min()) if sv.size else 1.0
         return float(np.linalg.cond(M))
     except Exception:
         return float('inf')
@@ -273,6 +277,8 @@ def port_impedance(net, n1, n2):
         return ZERO
     dead = {'ref': n2, 'branches': [deactivate(b) for b in net['branches']]}
     con, m = contract_shorts(dead)
+    if n1 not in m or n2 not in m:
+        return 'inf'          # a terminal that no branch touches
     a, b_ = m[n1], m[n2]
     if a == b_:
         return ZERO
